@@ -2,6 +2,7 @@
    sel_shape_ok, reflected in sel_shape) evaluated on the implementation's results. *)
 From Coq Require Import ZArith QArith List Bool.
 From VL Require Import Prelude.Sx Prelude.PyDict Model.GetNBest Proofs.Shape_proofs.
+From VL Require Import Model.Convert Model.Units Model.Hybrids Model.Elimination Model.ApprovalSimple.
 Import ListNotations.
 Open Scope Z_scope.
 
@@ -21,6 +22,46 @@ Definition u_c08 (k : Z) (a : sx) : sx :=
           match as_listof as_pos cs, as_nat n, as_listof as_res r with
           | Some cands, Some n, Some r => ok (of_bool (sel_shape_ok cands n r))
           | _, _, _ => bad_input
+          end
+      | _ => bad_input
+      end
+  (* 111: Baldwin (scorer votes n_seats) -> selection / error *)
+  | 1 =>
+      match a with
+      | L [sc; v; n] =>
+          match as_scorer_r sc, as_dict (as_listof as_item) as_Z v, as_nat n with
+          | Some sc, Some v, Some n =>
+              match baldwin sc v n with
+              | B_ok r => ok (L (map of_res r))
+              | B_value => err E_VALUE
+              | B_index => err E_INDEX
+              | B_fuel => err E_FUEL
+              end
+          | _, _, _ => bad_input
+          end
+      | _ => bad_input
+      end
+  (* 112: Baldwin._compute_negative_scores (scorer votes) -> [[cand score] ...] in dictionary order / error *)
+  | 2 =>
+      match a with
+      | L [sc; v] =>
+          match as_scorer_r sc, as_dict (as_listof as_item) as_Z v with
+          | Some sc, Some v =>
+              match neg_scores sc v with
+              | Some d => ok (L (map (fun cs : C * Q => L [of_pos (fst cs); of_Q (snd cs)]) d))
+              | None => err E_VALUE
+              end
+          | _, _ => bad_input
+          end
+      | _ => bad_input
+      end
+  (* 113: ApprovalToSimpleVotes(split).convert (split votes) -> [[cand votes] ...] in insertion order *)
+  | 3 =>
+      match a with
+      | L [sp; v] =>
+          match as_bool sp, as_aprofile v with
+          | Some sp, Some v => ok (L (map (fun cs : C * Q => L [of_pos (fst cs); of_Q (snd cs)]) (approval_simple sp v)))
+          | _, _ => bad_input
           end
       | _ => bad_input
       end
